@@ -64,6 +64,10 @@ def inners():
 WRAPPERS = ['seq', 'group', 'opt', 'zzalt', 'leftempty', 'expect', 'mix']
 
 
+# expression-tree levels one wrapper adds (a parenthesised group adds none)
+LEVELS = {'seq': 1, 'group': 0, 'opt': 1, 'zzalt': 2, 'leftempty': 1, 'expect': 1}
+
+
 def wrap_once(kind, e, rng):
     if kind == 'mix':
         kind = rng.choice(['seq', 'group', 'opt', 'zzalt', 'leftempty'])
@@ -147,9 +151,18 @@ def nesting_case(rec, iname, e0, rules, stmts, wkind, depth, named, bound, where
     r = observe.compile_grammar(d)
     rec.case()
     if r[0] != 'ok':
-        rec.violation('nesting:grammar-error:%s' % (r[1] if r[0] != 'timeout' else 'nonterm'), 'Grammar() of a deeply nested description',
-                      dict(case, desc=d[:300]), 'module', r)
+        sig = 'nesting:grammar-error:%s' % (r[1] if r[0] != 'timeout' else 'nonterm')
+        if r[0] != 'timeout' and r[1] == 'RecursionError':
+            # the code generator recurses over the expression tree (about 4 Python frames per expression
+            # level): the signature says how many expression levels the description nests, so that the
+            # known finding (>= 200 levels under the default recursion limit) cannot hide an earlier one
+            levels = sum(LEVELS[k] for k in kinds)
+            sig += ':levels>=200' if levels >= 200 else ':levels<200'
+            case = dict(case, expression_levels=levels)
+            rec.maxi('deepest_levels_refused_with_RecursionError', levels)
+        rec.violation(sig, 'Grammar() of a deeply nested description', dict(case, desc=d[:300]), 'module', r)
         return
+    rec.maxi('deepest_expression_levels_compiled', sum(LEVELS[k] for k in kinds))
     g = r[1]
     r0 = observe.compile_grammar(gast.render_grammar(G0))
     g0 = r0[1] if r0[0] == 'ok' else None
